@@ -491,7 +491,6 @@ func main() {
 	sinks := []gsink{
 		{"href-url", func(s string) templ.Component { return hrefURL(s) }, []PTok{Start("a", "href", "$A"), Text("x"), End("a")}},
 		{"action-url", func(s string) templ.Component { return actionURL(s) }, []PTok{Start("form", "action", "$A"), Text("x"), End("form")}},
-		{"href-url-conditional", func(s string) templ.Component { return hrefURLConditional(s, true) }, []PTok{Start("a", "href", "$A"), Text("x"), End("a")}},
 		{"href-safeurl-param", func(s string) templ.Component { return hrefSafeURLParam(templ.URL(s)) }, []PTok{Start("a", "href", "$A", "class", "k"), Text("x"), End("a")}},
 	}
 	type patReg struct {
@@ -551,8 +550,8 @@ func main() {
 	ctx := context.Background()
 	for xi, s := range rs {
 		for si, sk := range sinks {
-			if xi < candStart && ((si == 1 && xi%4 != 0) || (si >= 2 && xi%16 != 0)) {
-				continue // the secondary sinks see every 4th / 16th string (and every candidate)
+			if xi < candStart && ((si == 1 && xi%4 != 0) || (si >= 2 && xi%8 != 0)) {
+				continue // the secondary sinks see every 4th / 8th string (and every candidate)
 			}
 			var buf bytes.Buffer
 			if err := sk.render(s).Render(ctx, &buf); err != nil {
@@ -590,6 +589,14 @@ func main() {
 			ncand++
 			vhlib.Emit(map[string]any{"kind": "candidate", "xi": xi, "sig": cand.Sig, "what": cand.What, "in": strconv.Quote(str)})
 		}
+	}
+	// spread maps on <a>: what a plain string / a SafeURL value under the key "href" renders (judged by the trace spec)
+	for _, v := range []any{"javascript:alert(1)", "https://example.com/", templ.URL("javascript:alert(1)"), templ.SafeURL("/ok")} {
+		var buf bytes.Buffer
+		if err := hrefSpread(templ.Attributes{"href": v}).Render(ctx, &buf); err != nil {
+			vhlib.Fatal("render error: %v", err)
+		}
+		vhlib.Emit(map[string]any{"kind": "spread", "type": fmt.Sprintf("%T", v), "in": fmt.Sprint(v), "out": buf.String()})
 	}
 	vhlib.Sample(map[string]string{"in": strconv.Quote("java\tscript:alert(1)"), "out": string(templ.URL("java\tscript:alert(1)"))})
 	vhlib.Sample(map[string]string{"in": strconv.Quote("http\u017f://x"), "out": string(templ.URL("http\u017f://x")), "note": "EqualFold accepts LONG S; a browser sees no scheme: relative reference"})
